@@ -17,6 +17,12 @@ CHECKS = {
  "C03": ("fault_enumeration", "runtime monitor: every crash point (and torn write) of a recorded storage trace replayed; independent format reader + stitch model + restore oracle at each state",
          "For each scenario EVERY operation index of the backup's storage trace is a crash point (plus the torn-write variant for every write); at each resulting archive state the five clauses of the statement are decided by independent oracles. Exhaustive over crash points within each scenario, sampled over scenarios.",
          "Trusted: E2 reader (snap, serde_json, blake2-rfc); the interceptor sees every storage effect (all archive I/O goes through Transport); kill = no further storage effect.", "3 C03"),
+ "C04": ("fault_enumeration", "runtime monitor: every single storage fault (4 kinds) of a recorded trace + random multi-fault runs; independent decode of every recorded entry against source bytes",
+         "For each scenario EVERY operation of the backup's storage trace fails once with each of four error kinds, plus random multi-fault sequences; afterwards every file entry of every band is resolved through the raw blocks by the independent reader and compared with the bytes that path had in that band's source, earlier files must be byte-identical, and a run reporting full success must restore exactly.",
+         "Trusted: E2 reader; a fault returns an error without executing the operation.", "3 C04"),
+ "C05": ("fault_enumeration", "runtime monitor: all subsets x {dry, real} x every crash point x every failing read of delete_bands; independent reference scan + restore oracle",
+         "For generated archives every subset of versions is deleted (dry and real); for real deletes every crash point of the delete's storage trace and every read/list/metadata fault of four kinds is replayed; an independent reference scan and restore-and-compare of every kept complete version decide the outcome.",
+         "Trusted: E2 reader; kill = no later storage effect.", "3 C05"),
  "C11": ("exploration", "runtime monitor: executable order/validity model compared with Apath on exhaustive small alphabets + emitters observed on generated trees",
          "All pairs/triples of valid paths over two alphabets up to depth 4/3 and every string over a 13-component alphabet (exhaustive within the bound) are compared against an independent statement of the documented order and validity rule; the source walk, listings and independently decoded hunks of generated trees must be strictly increasing under it.",
          "Trusted: oracle::apath_key as restatement of doc/format.md; snap + serde_json to decode hunks.", "3 C11"),
